@@ -131,7 +131,10 @@ impl AluOutput {
         let b = input.input_b;
         let carry_in = input.carry_in;
         let (out, carry_out) = match function {
-            AluSelect::ADDH => a.overflowing_add(b),
+            AluSelect::ADDH => {
+                let (o, c) = a.overflowing_add(b);
+                (o, c || carry_in)
+            }
             AluSelect::A => (a, false),
             AluSelect::NOR => (!(a | b), false),
             AluSelect::ZERO => (0, false),
